@@ -1364,6 +1364,58 @@ func (e *SpecEnv) evalCall(n *ast.CallExpr) *SV {
 			return nil
 		}
 		return svInt(StrLen(a.V.L[0]))
+	case "storedvalue":
+		// storedvalue(): the (scalar) value being stored, in guard-store conditions
+		if e.g.storedVal == nil {
+			e.fail("storedvalue() is only available in guard-store conditions")
+			return nil
+		}
+		return &SV{V: scalar(types.Typ[types.Int], e.g.storedVal)}
+	case "argis":
+		// argis(k, "name"): the k-th argument of the guarded call is the source variable `name`
+		// (its value at this point), decided by the generator from the SSA
+		k, nm := arg(0), arg(1)
+		if k == nil || nm == nil || !k.V.L[0].IsLit() || !nm.V.L[0].IsLit() || e.g.curCall == nil {
+			e.fail("argis(k, \"name\") is only available in guard-call conditions")
+			return nil
+		}
+		i := int(k.V.L[0].I.Int64())
+		cc := e.g.curCall
+		var av ssa.Value
+		if cc.IsInvoke() {
+			if i == 0 {
+				av = cc.Value
+			} else if i-1 < len(cc.Args) {
+				av = cc.Args[i-1]
+			}
+		} else if i < len(cc.Args) {
+			av = cc.Args[i]
+		}
+		if av == nil {
+			return svBool(False)
+		}
+		name := nm.V.L[0].S
+		// look through the slice/convert wrappers of a variadic spread
+		for {
+			if v, ok := e.g.varAt[name]; ok && v == av {
+				return svBool(True)
+			}
+			if c, ok := e.g.varAt["&"+name]; ok {
+				if ld, isLoad := av.(*ssa.UnOp); isLoad && ld.X == c {
+					return svBool(True)
+				}
+			}
+			switch x := av.(type) {
+			case *ssa.ChangeType:
+				av = x.X
+				continue
+			case *ssa.MakeInterface:
+				av = x.X
+				continue
+			}
+			break
+		}
+		return svBool(False)
 	case "inscope":
 		// inscope("x"): the local x has a value on every path to this point (decided by the generator)
 		a := arg(0)
